@@ -32,7 +32,7 @@ def new_frame(vc, route, asc, quantities=False, prefix=''):
     else:
         kw.update(data=symbolic_array(prefix + 'D', (tch, fch)))
     out = vc.run(lambda: vc.interp.call(cls, [], kw))
-    return out, dict(fchans=fch, tchans=tch, df=df, dt=dt, fch1=fch1, asc=asc)
+    return out, dict(fchans=fch, tchans=tch, df=df, dt=dt, fch1=fch1, asc=asc, data_arg=kw.get('data'))
 
 
 def frame_invariant(vc, f, p, tag, chi2=None):
@@ -73,7 +73,7 @@ def frame_init(vc):
     frame_invariant(vc, out.value, p, f'Frame.__init__/{route}')
     if route == 'data':
         a, b = Int('a'), Int('b')
-        vc.ensure('C05/Frame.__init__/data/post/data-copied-not-aliased', out.value.fields['data'].root() is not None and out.value.fields['data'].base is None)
+        vc.ensure('C05/Frame.__init__/data/post/data-copied-not-aliased', out.value.fields['data'].root() is not p['data_arg'].root() and out.value.fields['data'].base is None)
 
 
 @contract('C05', 'derived_quantities', functions=[FR + '.fmid', FR + '.t_stop', FR + '.obs_length', FR + '.ts_ext', FR + '.get_drift_rate', FR + '.get_frequency'])
